@@ -129,7 +129,9 @@ func (s *Server) handleProposeVersions(msg protocol.Message) error {
 	}
 	// Send refusal if there are no matching versions
 	if len(versionIntersect) == 0 {
-		var supportedVersions []uint16
+		// Not a nil slice: with no supported versions the refusal must still carry
+		// an (empty) array of version numbers, a nil slice would be encoded as null
+		supportedVersions := make([]uint16, 0, len(s.config.ProtocolVersionMap))
 		for supportedVersion := range s.config.ProtocolVersionMap {
 			supportedVersions = append(supportedVersions, supportedVersion)
 		}
